@@ -185,6 +185,10 @@ pub async fn handshake_handler(w: Rc<World>, plan: Rc<Plan>, h: v3::Handshake) -
     let brief = format!("CONNECT id={} ka={} sig={:016x}", c.client_id, c.keep_alive, connect_sig_v3(c));
     let (gid, _) = w.gate_enter(conn, GateKind::Handshake, GateDesc::Handshake { brief });
     let _guard = GateGuard { w: w.clone(), id: gid };
+    if cfg.early_senders && conn == 0 && matches!(cfg.hs, HsOutcome::Accept) {
+        // the application starts publishing through the handshake's sink before it acknowledges the CONNECT
+        start_senders(&w, &plan, h.sink());
+    }
     let planned = match &cfg.hs {
         HsOutcome::Accept => Outcome::Ok,
         HsOutcome::Refuse(c) => Outcome::Refuse(*c),
@@ -274,7 +278,7 @@ macro_rules! v3_factory {
     let (w4, p4) = (w.clone(), plan.clone());
     let publish = fn_factory_with_config(move |ses: v3::Session<St>| {
         let (w, plan, conn) = (w4.clone(), p4.clone(), ses.conn);
-        if conn == 0 {
+        if conn == 0 && !plan.cfg.early_senders {
             start_senders(&w, &plan, ses.sink().clone());
         }
         async move {
